@@ -142,7 +142,9 @@ pub fn listings_check(args: &Args) -> (Vec<Finding>, Value) {
     let mut findings = vec![];
     let mut n = 0u64;
     let mut n_equal_required = 0u64;
-    let tables: Vec<Table> = families::generic_tables(true, false).into_iter().step_by(if quick { 13 } else { 3 }).collect();
+    let mut tables: Vec<Table> = families::generic_tables(true, false).into_iter().step_by(if quick { 13 } else { 3 }).collect();
+    // alphabetic binary operator `min` sorts between the unary `cos` and `sin`; `^`-like symbols after `-`
+    tables.extend(families::generic_tables(true, true).into_iter().step_by(if quick { 13 } else { 3 }));
     let cfg = gen_cfg(true, args.seed(), false);
     let _ = std::panic::take_hook();
     std::panic::set_hook(Box::new(|_| {}));
@@ -184,7 +186,8 @@ pub fn listings_check(args: &Args) -> (Vec<Finding>, Value) {
                         }
                         walk(a, un, bin, all_dep);
                     }
-                    Tree::Bin(k, a, b) => {
+                    Tree::Paren(a) => walk(a, un, bin, all_dep),
+                    Tree::Bin(k, a, b) | Tree::Call(k, a, b) => {
                         if a.has_var() || b.has_var() {
                             bin.push(*k)
                         } else {
@@ -315,6 +318,121 @@ pub fn part_call_nesting(args: &Args, pls: &[&'static str]) -> Part {
     Part { name: "call-nesting", out, bounds }
 }
 
+/// C08: calls whose arguments are infix expressions that themselves contain calls, parenthesised
+/// groups and unary functions (`f(a, g(b, c) * (d) + e)`), embedded as operands.
+pub fn part_call_in_infix(args: &Args, pls: &[&'static str]) -> Part {
+    let quick = args.tier_quick();
+    let mut tables = vec![];
+    for (pmin, pmax, pminus, ppct, pstar, fl) in [(0, 0, 1, 2, 2, 0u8), (1, 0, 0, 0, 3, 3), (0, 2, 1, 1, 0, 1), (2, 2, 2, 2, 2, 2), (3, 1, 2, 0, 1, 0), (0, 0, 0, 1, 2, 3)] {
+        tables.push(Table {
+            ops: vec![
+                OpSpec::bin("min", pmin, fl & 1 != 0),
+                OpSpec::bin("max", pmax, fl & 2 != 0),
+                OpSpec::dual("-", pminus, false),
+                OpSpec::un("sin"),
+                OpSpec::un("cos"),
+                OpSpec::konst("PI"),
+                OpSpec::bin("atan2", 0, false),
+                OpSpec::bin("%", ppct, false),
+                OpSpec::bin("*", pstar, fl & 2 != 0),
+            ],
+            arithmetic: false,
+            not_really_ac: vec![],
+        });
+    }
+    let seed = args.seed();
+    let gen = move |ti: usize, _t: &Table| -> Vec<Program> {
+        let (min, max, minus, sin, atan2, pct, star) = (0u16, 1u16, 2u16, 3u16, 6u16, 7u16, 8u16);
+        let form = |k: usize, i: usize| -> Tree {
+            let v = Tree::var(["x", "y", "z"][i % 3]);
+            let l = Tree::lit(families::LITS[i % 8]);
+            match k {
+                0 => v,
+                1 => l,
+                2 => Tree::paren(v),
+                3 => Tree::call(if i % 2 == 0 { min } else { atan2 }, v, l),
+                4 => Tree::paren(Tree::call(max, l, v)),
+                5 => Tree::un(sin, v),
+                6 => Tree::un(sin, Tree::call(min, v.clone(), v)),
+                _ => Tree::un(minus, Tree::paren(v)),
+            }
+        };
+        let infix = [pct, minus, star];
+        let mut es: Vec<Tree> = vec![];
+        for k in 0..8 {
+            es.push(form(k, 0));
+        }
+        for k1 in 0..8 {
+            for k2 in 0..8 {
+                for o in infix {
+                    es.push(families::chain_to_tree(&[form(k1, 0), form(k2, 1)], &[o]));
+                }
+            }
+        }
+        let mut ctr = seed.wrapping_add(ti as u64 * 31);
+        for k1 in 0..8 {
+            for k2 in 0..8 {
+                for k3 in 0..8 {
+                    for (o1, o2) in [(pct, minus), (minus, pct), (star, minus), (minus, minus), (minus, star), (pct, pct)] {
+                        ctr += 1;
+                        if quick && ctr % 3 != 0 {
+                            continue;
+                        }
+                        es.push(families::chain_to_tree(&[form(k1, 0), form(k2, 1), form(k3, 2)], &[o1, o2]));
+                    }
+                }
+            }
+        }
+        let mut firsts: Vec<Tree> = (0..8).map(|k| form(k, 2)).collect();
+        firsts.push(families::chain_to_tree(&[form(3, 1), form(2, 2)], &[minus]));
+        firsts.push(families::chain_to_tree(&[form(0, 1), form(4, 2)], &[star]));
+        let mut out = vec![];
+        for (ei, e) in es.iter().enumerate() {
+            for (ai, a) in firsts.iter().enumerate() {
+                ctr += 1;
+                if false {
+                    continue;
+                }
+                let f = if (ei + ai) % 2 == 0 { max } else { min };
+                let t = Tree::call(f, a.clone(), e.clone());
+                out.push(Program { text: render(&t, &Style::default()), tree: Some(t.clone()), class: "call-in-infix" });
+                match ctr % 8 {
+                    0 => {
+                        let t2 = Tree::bin(pct, t.clone(), Tree::var("w"));
+                        out.push(Program { text: render(&t2, &Style::default()), tree: Some(t2), class: "call-in-infix-embedded" });
+                    }
+                    1 => {
+                        let t2 = Tree::bin(minus, Tree::var("w"), t.clone());
+                        out.push(Program { text: render(&t2, &Style { space: true, ..Default::default() }), tree: Some(t2), class: "call-in-infix-embedded" });
+                    }
+                    2 => {
+                        let t2 = Tree::un(sin, t.clone());
+                        out.push(Program { text: render(&t2, &Style { bare_unary_call: true, ..Default::default() }), tree: Some(t2), class: "call-in-infix-embedded" });
+                    }
+                    3 => {
+                        // the call in the first argument of another call and in the second
+                        let t2 = Tree::call(atan2, t.clone(), Tree::var("w"));
+                        out.push(Program { text: render(&t2, &Style::default()), tree: Some(t2), class: "call-in-infix-embedded" });
+                        let t3 = Tree::call(atan2, Tree::lit("9"), t.clone());
+                        out.push(Program { text: render(&t3, &Style::default()), tree: Some(t3), class: "call-in-infix-embedded" });
+                    }
+                    _ => {}
+                }
+            }
+        }
+        out
+    };
+    let sc = mk_sweep(args, tables, &gen, pls.to_vec(), 64);
+    let ntab = sc.tables.len();
+    let out = sweep::sweep(&sc);
+    let bounds = json!({
+        "tables": ntab,
+        "programs": "f(A, E): E = infix chain of 1..3 operands over % - * , each operand one of {variable, literal, (variable), g(v, l), (g(l, v)), sin v, sin g(v, v), -(v)}; A = one such operand or a 2-operand chain; f, g in {min, max, atan2}; embedded plain, as left/right operand, under sin, as first/second argument of another call (quick: every 3rd)",
+        "pipelines": pls,
+    });
+    Part { name: "call-in-infix", out, bounds }
+}
+
 /// C12: a flat expression obtained by parsing prints exactly its source text (string equality).
 pub fn part_unparse_identity(args: &Args) -> Part {
     let t0 = Instant::now();
@@ -384,8 +502,8 @@ pub fn part_clone_counts(args: &Args) -> Part {
     fn occurrences(t: &Tree, m: &mut BTreeMap<String, u32>) {
         match t {
             Tree::Var(n) => *m.entry(n.clone()).or_insert(0) += 1,
-            Tree::Un(_, a) => occurrences(a, m),
-            Tree::Bin(_, a, b) => {
+            Tree::Un(_, a) | Tree::Paren(a) => occurrences(a, m),
+            Tree::Bin(_, a, b) | Tree::Call(_, a, b) => {
                 occurrences(a, m);
                 occurrences(b, m);
             }
@@ -807,10 +925,16 @@ pub fn c07(args: &Args) -> i32 {
                 if inside_token(&chars, i) && i != 0 && i != chars.len() {
                     continue;
                 }
-                for bad in ['#', '$', '\\', '?'] {
+                for bad in ['#', '$', '\\', '?', '\u{a0}', '\u{2003}', '\u{3000}', '\u{85}', 'é', '😀', '\t'] {
                     let mut d = chars.clone();
                     d.insert(i, bad);
                     damaged.push((d.into_iter().collect(), "illegal character"));
+                }
+            }
+            // a malformed tail behind a blank-like character must not be dropped silently
+            for blank in ['\u{a0}', '\u{2003}', '\u{3000}', '\t', '\n'] {
+                for tail in [")", "+", "%", "3", "(", "#"] {
+                    damaged.push((format!("{}{blank}{tail}", p.text), "malformed tail behind a blank-like character"));
                 }
             }
             for (text, kind) in damaged {
@@ -851,7 +975,7 @@ pub fn c07(args: &Args) -> i32 {
     let part2 = Part {
         name: "single-point-damage",
         out: dmg,
-        bounds: json!({"tables": dtables.len(), "damages": ["delete one parenthesis (every occurrence)", "insert ( or ) at every token boundary", "append a binary operator", "extra operand before/after", "illegal character # $ \\ ? at start, middle, end"],
+        bounds: json!({"tables": dtables.len(), "damages": ["delete one parenthesis (every occurrence)", "insert ( or ) at every token boundary", "append a binary operator", "extra operand before/after", "illegal character # $ \\ ? NBSP EM-SPACE IDEOGRAPHIC-SPACE NEL é emoji TAB at start, middle, end"],
             "originals": "tree-generated well-formed texts (<=3 operands exhaustive incl. unary chains, renderings and call forms as in the quick tree family)", "note": "path-level: every damaged text must be rejected by FlatEx::parse, parse_wo_compile and DeepEx::parse"}),
     };
     finish(args, "C07", vec![part1, part2], vec![], json!({
@@ -988,7 +1112,8 @@ fn subst_tree(t: &Tree, sigma: &BTreeMap<String, Tree>) -> Tree {
     match t {
         Tree::Var(n) => sigma.get(n).cloned().unwrap_or_else(|| t.clone()),
         Tree::Un(k, a) => Tree::un(*k, subst_tree(a, sigma)),
-        Tree::Bin(k, a, b) => Tree::bin(*k, subst_tree(a, sigma), subst_tree(b, sigma)),
+        Tree::Paren(a) => subst_tree(a, sigma),
+        Tree::Bin(k, a, b) | Tree::Call(k, a, b) => Tree::bin(*k, subst_tree(a, sigma), subst_tree(b, sigma)),
         other => other.clone(),
     }
 }
